@@ -78,6 +78,18 @@ type v4world struct {
 
 func (w *v4world) now() time.Duration { return w.c.S.Now() }
 
+// c02OfferHold: how long an OFFER/ADVERTISE that the client has not taken up
+// still counts as "offered to a different client". The property does not say;
+// the weakest reading that still covers concurrent and back-to-back exchanges is
+// used: one minute (a client that has not sent its REQUEST by then has restarted
+// discovery, RFC 2131 4.4.1), never longer than the lease itself.
+func c02OfferHold(lease time.Duration) time.Duration {
+	if lease < time.Minute {
+		return lease
+	}
+	return time.Minute
+}
+
 func (w *v4world) holderOf(ip net.IP, except int) (int, string) {
 	for i, b := range w.bounds {
 		if i != except && b.ip.Equal(ip) && w.now() < b.until {
@@ -143,7 +155,7 @@ func (w *v4world) onReply(b []byte, to net.Addr) {
 		if w.declined[ip.String()] {
 			c.Fail("declined-reoffered", "v4/offer-declined", "OFFER of %v to client %d although it was declined earlier", ip, cl.idx)
 		}
-		w.offers[cl.idx] = &v4bind{ip, w.now() + lt}
+		w.offers[cl.idx] = &v4bind{ip, w.now() + c02OfferHold(lt)}
 		w.lastEv[ip.String()] = "offered"
 		cl.offered = ip
 	case dhcpv4.MessageTypeAck:
@@ -194,9 +206,11 @@ func c02Gen(r *sim.Rand, tier string) *sim.Case {
 		case 0:
 			cs.Ops = append(cs.Ops, sim.Op{K: "discover", A: []int64{c}})
 		case 1:
-			cs.Ops = append(cs.Ops, sim.Op{K: "request", A: []int64{c, int64(r.Weighted(10, 6, 5, 1, 1, 1, 1, 2, 2)), int64(r.N(nc))}})
+			// A[3]=1: a renewal unicast to the server, bypassing the relay agent (no giaddr, no option 82)
+			cs.Ops = append(cs.Ops, sim.Op{K: "request", A: []int64{c, int64(r.Weighted(10, 6, 5, 1, 1, 1, 1, 2, 2)), int64(r.N(nc)), int64(r.Weighted(2, 1))}})
 		case 2:
-			cs.Ops = append(cs.Ops, sim.Op{K: "release", A: []int64{c}})
+			// A[1]=1: RELEASE is unicast to the server and normally bypasses the relay agent
+			cs.Ops = append(cs.Ops, sim.Op{K: "release", A: []int64{c, int64(r.Weighted(1, 1))}})
 		case 3:
 			cs.Ops = append(cs.Ops, sim.Op{K: "decline", A: []int64{c}})
 		case 4:
@@ -205,6 +219,19 @@ func c02Gen(r *sim.Rand, tier string) *sim.Case {
 			cs.Ops = append(cs.Ops, sim.Op{K: "sleep", A: []int64{int64(r.N(7))}})
 		case 6:
 			cs.Ops = append(cs.Ops, sim.Op{K: "burst", A: []int64{int64(r.Range(2, 3))}})
+		}
+	}
+	if r.P(50) {
+		// drain tail: every client tries to obtain a binding, the cleanup tick passes, and they try
+		// again - an address that the history put back into circulation while somebody still holds
+		// it (or that two tables disagree about) is handed out here
+		for round := 0; round < 2; round++ {
+			for c := 0; c < nc; c++ {
+				cs.Ops = append(cs.Ops, sim.Op{K: "discover", A: []int64{int64(c)}}, sim.Op{K: "request", A: []int64{int64(c), 0, 0, 0}})
+			}
+			if round == 0 {
+				cs.Ops = append(cs.Ops, sim.Op{K: "sleep", A: []int64{4}})
+			}
 		}
 	}
 	return cs
@@ -268,6 +295,7 @@ func c02Run(c *sim.Ctx) {
 	defer cancel()
 	c.S.Spawn("lease-cleanup", nil, func() { srv.VerifRunLeaseCleanup(ctx) })
 
+	direct := false // the next message is unicast to the server, bypassing the relay agent
 	build := func(cl *v4client, mt dhcpv4.MessageType, mods ...dhcpv4.Modifier) *dhcpv4.DHCPv4 {
 		cl.xid++
 		m, err := dhcpv4.New(append([]dhcpv4.Modifier{
@@ -277,7 +305,7 @@ func c02Run(c *sim.Ctx) {
 		if err != nil {
 			panic(err)
 		}
-		if cl.relayed {
+		if cl.relayed && !direct {
 			m.GatewayIPAddr = cl.giaddr
 			m.UpdateOption(dhcpv4.OptRelayAgentInfo(dhcpv4.OptGeneric(dhcpv4.GenericOptionCode(1), cl.cid)))
 		}
@@ -317,7 +345,9 @@ func c02Run(c *sim.Ctx) {
 			}
 			w.lastEv[b.ip.String()] = "released"
 			w.lastReq[ci] = "release"
+			direct = op.Arg(1) == 1
 			m := build(cl, dhcpv4.MessageTypeRelease)
+			direct = false
 			m.ClientIPAddr = b.ip
 			cl.bound = nil
 			return cl, m
@@ -399,7 +429,9 @@ func c02Run(c *sim.Ctx) {
 			w.lastReq[ci] = kind
 			var m *dhcpv4.DHCPv4
 			if useCiaddr {
+				direct = op.Arg(3) == 1
 				m = build(cl, dhcpv4.MessageTypeRequest)
+				direct = false
 				m.ClientIPAddr = ip
 			} else {
 				m = build(cl, dhcpv4.MessageTypeRequest, dhcpv4.WithOption(dhcpv4.OptRequestedIPAddress(ip)),
@@ -454,7 +486,13 @@ func c02Run(c *sim.Ctx) {
 		op := ops[i]
 		switch op.K {
 		case "sleep":
-			c.S.Sleep(sleepFor(op.Arg(0)))
+			d := sleepFor(op.Arg(0))
+			if d >= lease {
+				c.S.Fault("clock.jump-past-lease-expiry")
+			} else if d > 5*time.Second {
+				c.S.Fault("clock.jump-inside-lease")
+			}
+			c.S.Sleep(d)
 		case "burst":
 			n := int(op.Arg(0))
 			// messages of one burst come from distinct clients: two in-flight
@@ -544,10 +582,10 @@ func init() {
 			"dhcp.Pool / dhcp.PoolManager", "ebpf.Loader without maps (as without XDP)", "insomniacslk/dhcp encode/decode",
 			"dhcpv6.Server.handleMessage with its address and prefix pools"},
 		Stub:         []string{"UDP sockets / server4 receive loop (messages are handed to the packet handler directly, one handler task per message)", "clients"},
-		Rule:         "cases: 4-30 client messages (DISCOVER, REQUEST in 9 flavours incl. foreign/gateway/network/broadcast/out-of-pool addresses, RELEASE, DECLINE, INFORM; v6: SOLICIT/REQUEST/RENEW/REBIND/CONFIRM/RELEASE/DECLINE) from 2-5 clients, bursts delivered concurrently, sleeps across T1/expiry/cleanup; non-trivial = >=3 replies and (a fault fired or >2 context switches); distinct = distinct (case hash, schedule fingerprint)",
+		Rule:         "cases: 4-30 client messages (DISCOVER, REQUEST in 9 flavours incl. foreign/gateway/network/broadcast/out-of-pool addresses, RELEASE, DECLINE, INFORM; v6: SOLICIT/REQUEST/RENEW/REBIND/CONFIRM/RELEASE/DECLINE) from 2-5 clients, bursts delivered concurrently, sleeps across T1/expiry/cleanup, RELEASE/renew of relayed clients with or without the relay's giaddr+option 82, in half of the v4 runs a drain tail (every client DISCOVER+REQUEST, cleanup tick, again), v6 over legacy pools or integrated PoolAllocator pools; non-trivial = >=3 replies and (a fault fired or >2 context switches); distinct = distinct (case hash, schedule fingerprint)",
 		QuickRuns:    30000,
 		ThoroughRuns: 1500000,
-		Assumptions: []string{"a client is a MAC (direct) or a MAC with its own circuit-id (relayed); circuit-ids are not shared between MACs", "an offer is open until the same client is answered again or the offered lease time passes",
+		Assumptions: []string{"a client is a MAC (direct) or a MAC with its own circuit-id (relayed); circuit-ids are not shared between MACs", "an OFFER/ADVERTISE counts as 'offered to a different client' until the same client is answered again or one minute has passed (never longer than the lease): the property does not define how long an offer stands, this is the weakest reading that still covers concurrent and back-to-back exchanges",
 			"addresses on an offer that was never taken up, and declined addresses, are not required to become available again"},
 	})
 }
